@@ -302,6 +302,73 @@ def respell_targets(data: bytes, style: str = "mixed", seed: int = 0) -> bytes:
     return write_members(out)
 
 
+def respell_package_xml(data: bytes, style: str = "mixed", seed: int = 0) -> bytes:
+    """The package's own XML items (.rels items, [Content_Types].xml) in equivalent XML spellings: a namespace prefix instead of the
+    default namespace, one attribute per line (line feed / tab right after the element name), UTF-16."""
+    r = random.Random(seed)
+    out = []
+    for n, blob in read_members(data):
+        pn = "/" + n
+        if refpkg._is_rels_item(pn) or n == "[Content_Types].xml":
+            st = style if style != "mixed" else r.choice(["prefixed", "multiline", "utf16", "keep"])
+            if st != "keep":
+                root = refpkg.parse(blob)
+                ns = etree.QName(root).namespace
+                if st == "utf16":
+                    blob = etree.tostring(root, xml_declaration=True, encoding="UTF-16", standalone=True)
+                else:
+                    from xml.sax.saxutils import quoteattr
+                    pfx = "pr:" if st == "prefixed" else ""
+                    sep = " " if st == "prefixed" else "\n\t"
+                    decl = ('xmlns:pr=%s' if st == "prefixed" else 'xmlns=%s') % quoteattr(ns)
+                    parts = ["<?xml version='1.0' encoding='UTF-8' standalone='yes'?>\n<%s%s%s%s>" % (pfx, etree.QName(root).localname, sep, decl)]
+                    for el in root:
+                        if not isinstance(el.tag, str):
+                            continue
+                        attrs = sep.join("%s=%s" % (k, quoteattr(v)) for k, v in el.attrib.items())
+                        parts.append("<%s%s%s%s/>" % (pfx, etree.QName(el).localname, sep, attrs))
+                    parts.append("</%s%s>" % (pfx, etree.QName(root).localname))
+                    blob = "\n".join(parts).encode("utf-8")
+        out.append((n, blob))
+    return write_members(out)
+
+
+def big_blob(data: bytes, size: int = 4 * 1024 * 1024 + 1, seed: int = 0) -> bytes:
+    """A large binary part (a video, an embedded database dump): a new part of `size` bytes related from the presentation part under a
+    custom relationship type, typed by an Override.  python-pptx carries it as a generic part."""
+    import hashlib
+    members = read_members(data)
+    names = {n for n, _ in members}
+    k = 1
+    while "ppt/customData/big%d.bin" % k in names:
+        k += 1
+    name = "ppt/customData/big%d.bin" % k
+    block = hashlib.sha256(b"big-%d" % seed).digest()
+    blob = (block * (size // len(block) + 1))[:size]
+    out = []
+    for n, b in members:
+        if n == "ppt/_rels/presentation.xml.rels":
+            root = refpkg.parse(b)
+            used = {el.get("Id") for el in root if isinstance(el.tag, str)}
+            i = 1
+            while "rId%d" % i in used:
+                i += 1
+            el = etree.SubElement(root, "{%s}Relationship" % refpkg.NS_REL)
+            el.set("Id", "rId%d" % i)
+            el.set("Type", "urn:verif:large-binary")
+            el.set("Target", "customData/big%d.bin" % k)
+            b = etree.tostring(root, xml_declaration=True, encoding="UTF-8", standalone=True)
+        elif n == "[Content_Types].xml":
+            root = refpkg.parse(b)
+            o = etree.SubElement(root, "{%s}Override" % refpkg.NS_CT)
+            o.set("PartName", "/" + name)
+            o.set("ContentType", "application/x-verif-large-binary")
+            b = etree.tostring(root, xml_declaration=True, encoding="UTF-8", standalone=True)
+        out.append((n, b))
+    out.append((name, blob))
+    return write_members(out)
+
+
 def layout_logo(data: bytes, k: int = 0, seed: int = 0) -> bytes:
     """A template with a logo: a picture on slide layout number k (modulo), whose image part nothing else refers to."""
     from . import gens
@@ -459,6 +526,19 @@ def rewrite_charts(data: bytes, how: str, seed: int = 0) -> bytes:
                     for e, v in zip(ords, reversed(vals)):
                         e.set("val", v)
                     changed = True
+            elif how == "optional_children":
+                # c:dLbls carrying shape properties (PowerPoint 2013+ writes them) and no number format
+                A_ = "{http://schemas.openxmlformats.org/drawingml/2006/main}"
+                for dl in root.iter(C_ + "dLbls"):
+                    if dl.find(C_ + "spPr") is None and dl.find(C_ + "delete") is None:
+                        sp = etree.Element(C_ + "spPr")
+                        etree.SubElement(sp, A_ + "noFill")
+                        after = [e for e in dl if isinstance(e.tag, str) and etree.QName(e).localname in ("dLbl", "numFmt")]
+                        if after:
+                            after[-1].addnext(sp)
+                        else:
+                            dl.insert(0, sp)
+                        changed = True
             elif how == "date1904":
                 d = root.find(C_ + "date1904")
                 if d is None:
@@ -534,6 +614,20 @@ def rewrite_slides(data: bytes, how: str) -> bytes:
                             h.set("action", hc.get("action"))
                         hc.addnext(h)
                         changed = True
+            if how == "optional_children":
+                # optional children python-pptx never writes but other producers do: a custom dash on every outline that has no dash yet
+                for ln in root.iter(A + "ln"):
+                    if ln.find(A + "prstDash") is None and ln.find(A + "custDash") is None:
+                        cd_ = etree.Element(A + "custDash")
+                        ds = etree.SubElement(cd_, A + "ds")
+                        ds.set("d", "300000")
+                        ds.set("sp", "100000")
+                        fills = [e for e in ln if isinstance(e.tag, str) and etree.QName(e).localname in ("noFill", "solidFill", "gradFill", "pattFill")]
+                        if fills:
+                            fills[-1].addnext(cd_)
+                        else:
+                            ln.insert(0, cd_)
+                        changed = True
             if how == "strip_cell_txBody":
                 for tc in root.iter(A + "tc"):
                     tb = tc.find(A + "txBody")
@@ -560,6 +654,10 @@ def apply(data: bytes, x: dict) -> bytes:
         return rewrite_slides(data, x.get("how", "strip_tblPr"))
     if kind == "drop_notes_master_rel":
         return drop_notes_master_rel(data)
+    if kind == "respell_package_xml":
+        return respell_package_xml(data, x.get("style", "mixed"), x.get("seed", 0))
+    if kind == "big_blob":
+        return big_blob(data, x.get("size", 4 * 1024 * 1024 + 1), x.get("seed", 0))
     if kind == "layout_logo":
         return layout_logo(data, x.get("k", 0), x.get("seed", 0))
     if kind == "respell_targets":
